@@ -18,6 +18,13 @@ FIXED = [
     ("dup_unpack_obj", '{a: t(1), **{a: t(2), b: t(3)}, **{b: t(4), c: t(5)}}.p'),
     ("dup_unpack_map", '%{1: t(1), **%{1: t(2), 2: t(3)}, **%{2: t(4), 3: t(5)}}.p'),
     ("kwargs_unpack", 'fk(t(1), k2: t(2), **{k1: t(3), k2: t(4)}).p'),
+    ("kwargs_unpack_two", 'fk(t(1), **{k1: t(2)}, **{k1: t(3), k2: t(4)}).p'),
+    ("kwargs_unpack_three", '{|| \\_}(**{k: t(1)}, **{k: t(2), j: t(3)}, **{j: t(4), k: t(5), i: t(6)}).p'),
+    ("kwargs_unpack_mixed", 'fk(t(1), k2: t(2), **{k2: t(3)}, **{k1: t(4), k2: t(5)}).p'),
+    ("obj_unpack_three", '{**{k: t(1)}, **{k: t(2), j: t(3)}, **{j: t(4), i: t(5)}}.p'),
+    ("map_unpack_three", '%{**%{1: t(1)}, **%{1: t(2), 2: t(3)}, **{a: t(4)}, **{a: t(5)}}.p'),
+    ("arr_unpack_two", '[*[t(1), t(2)], t(3), *[t(4)]].p'),
+    ("args_unpack_two", 'f3(*[t(1)], *[t(2), t(3)]).p'),
     ("obj_iter_9", 'o9@{|k, v| [k, v]}.p'),
     ("obj_keys_9", 'o9.keys.p; o9.values.p; o9.items.p'),
     ("obj_print_9", 'o9.p; o9.S.p'),
